@@ -16,7 +16,8 @@ RULE = (
     "I: B [else: L], with cm(): B, try: B except E: L [finally: L]) over level-0 bodies, C in {True, False, 0, 1, p, not "
     "p, q}, I in {(), (1,), range(2), xs}; level 2 = every compound whose body is one level-1 shape and whose else is "
     "absent or an observable (quick: outer C in {True, p}, I = xs; thorough: all C and I and bodies "
-    "'observable; shape'); each shape is followed by an observable statement inside def f(p, q, xs) and run under all 8 "
+    "'observable; shape'); level 3 = guarded exits: every loop kind whose body is [if C: L1 [else: L3]; L2] "
+    "over all loop leaves L1, L2, with and without a loop else; each shape is followed by an observable statement inside def f(p, q, xs) and run under all 8 "
     "valuations with exceptions printed; shapes whose original does not terminate are dropped (counted). pointless "
     "family: 48 expression statements (pure / user call / unknown name / call hidden in comprehension, conditional "
     "expression, f-string, subscript, attribute, default argument / raising builtin call inside try). oracle 1: "
@@ -118,6 +119,26 @@ def level2(tier):
         yield s
 
 
+def guarded_exits():
+    """Loop bodies of the form [if C: L1 [else: L3]; L2]: a guarded jump followed by another jump / observable
+    at loop-body level, in every loop kind, with and without a loop else (shape family added after the seeded
+    change C16-continue-not-a-way-past-loop showed that two-statement loop bodies were missing)."""
+    outers = ["for v in %s:" % it for it in ITERS] + ["while %s:" % c for c in ("True", "p", "1")]
+    ls = leaves(True)
+    for outer in outers:
+        for c in ("p", "q"):
+            for l1 in ls:
+                for l2 in ls:
+                    if l1 == 'print("o")' and l2 == 'print("o")':
+                        continue
+                    inner = "if %s:\n%s" % (c, ind(l1))
+                    for inner_else in (None, "return 2", 'print("ie")'):
+                        it = inner if inner_else is None else inner + "\nelse:\n" + ind(inner_else)
+                        body = it + "\n" + l2
+                        yield "%s\n%s" % (outer, ind(body))
+                        yield "%s\n%s\nelse:\n    print(\"le\")" % (outer, ind(body))
+
+
 POINTLESS = [
     "1", "x", "x + 1", "[x]", "{1: x}", "x < 2", "not x", "x if p else 1", "[i for i in xs]", "f'{x}'", "xs[:1]", "x.real",
     "(lambda: 0)", "note", "...", "'doc'", "(x, x)",
@@ -137,6 +158,9 @@ def units(tier):
     l2 = list(dict.fromkeys(level2(tier)))
     for i in range(0, len(l2), 60):
         yield {"t": "shape", "level": 2, "shapes": l2[i : i + 60]}
+    ge = list(dict.fromkeys(guarded_exits()))
+    for i in range(0, len(ge), 60):
+        yield {"t": "shape", "level": 3, "shapes": ge[i : i + 60]}
     for e in POINTLESS:
         yield {"t": "pointless", "expr": e}
     for e in RAISING:
